@@ -51,6 +51,7 @@ ReplyViol(e, fx) ==
     LET tag == e.op \o "/" \o e.peer IN
     IF fx.act = "reject" \/ e.nwire # 1 THEN {}
     ELSE IF e.res = "panic" THEN {"C06/panic/frontend/" \o tag}
+    ELSE IF e.res = "stuck" THEN {"C06/frontend/hang-on-bad-reply/" \o tag, "C10/fe/call-never-returns-even-after-the-connection-is-gone/" \o e.op}
     ELSE IF e.peer = "auto"
          THEN (IF e.hang THEN {"C06/frontend/hang-on-correct-reply/" \o e.op}
                ELSE IF e.res # "ok" THEN {"C01/frontend/conformant-reply-rejected/" \o e.op \o "/" \o e.res}
@@ -98,7 +99,8 @@ TVCall == /\ l <= Len(Rec) /\ Rec[l].ev = "call"
                  fx == FeExpect(fe, e.op, e.cls, v)
                  gated == e.cls \notin LocalRejectClasses(e.op) /\ ~FeGateOK(fe, e.op, e.cls)
              IN /\ viol' = IF desync THEN viol   \* once out of step, the rest of the session is not judged
-                            ELSE AddViol(viol, WireViol(e, fx, gated) \cup ReplyViol(e, fx) \cup StrayViol(e), cur)
+                            ELSE AddViol(viol, (IF e.res \in {"panic", "stuck"} THEN {} ELSE WireViol(e, fx, gated)) \cup ReplyViol(e, fx) \cup StrayViol(e)
+                                               \cup (IF ~e.lent_ok THEN {"C09/frontend/lent-descriptor-closed/" \o e.op \o "/" \o e.cls} ELSE {}), cur)
                 /\ desync' = (desync \/ StrayViol(e) # {})
                 /\ fe' = FeNext(fe, e.op, e.cls, v, VF_PROTOCOL_FEATURES \in ToSet(e.rv), e.res = "ok")
           /\ judged' = judged + 1 /\ l' = l + 1
